@@ -1,5 +1,5 @@
 import FatVerif.Props.C09
-import FatVerif.Proofs.FaultSim10
+import FatVerif.Proofs.FaultSim11
 import FatVerif.Props.C01sim
 /-! # C09, continued: the roll-back of `write_entry` never fails on a writable directory
 
@@ -123,7 +123,8 @@ for a cluster-chain handle), so of `ApiX = RollbackErr ∨ EntryRollbackX` only 
 (`createDir_propagates_root_plain`): EVERY run of `write_entry` on the root — also one hit by the fault — appends only
 records inside the root region or on the status byte (`writeEntry_root_gs`, the descent of SliceModel5 for the record
 class `RootC`), so the FAT entry of the new cluster still ends a chain and `free_cluster_chain` succeeds
-(`run_freeClusterChain_ok`, no hypothesis on the FS-info cache). For cluster-chain parents `RollbackErr` remains. -/
+(`run_freeClusterChain_ok`, no hypothesis on the FS-info cache). For cluster-chain parents it is excluded by a different
+argument at the end of this file (`createDir_propagates_wview_plain`, `createDir_propagates_chain_plain`). -/
 
 open DirSim FileSim Fat in
 /-- **`create_dir`, `Propagates` up to `RollbackErr` only** on writable directories (hypotheses of `WView.createDir_sim`,
@@ -260,7 +261,7 @@ theorem createDir_propagates_root_plain {d : Dev} {N : Nat} (h : RootReadable d.
       exact ⟨by show _ ≤ _ + 32 * i; omega, by show _ + 32 * i + 32 ≤ _; omega,
         Or.inl (by show _ + 32 * i + 32 ≤ _; omega)⟩)
     (fun q hq => hq.elim)
-    (fun d2 d3 d4 raw rw f e _ hg2 hsz2 hwf2 htv2 hw hfa3 _ hfree =>
+    (fun d2 d3 d4 raw rw f e _ hg2 hsz2 hwf2 htv2 hw hfa3 _ hfree _ _ _ _ =>
       root_free_after_writeEntry d N hsz hin hgeo hout c ⟨hc2, hct⟩ d2 d3 d4 name raw rw e hg2 hsz2 hwf2 htv2 hw hfa3 hfree)
     fuel hr)
 
@@ -392,5 +393,145 @@ example (k : Nat) : ∀ r d', run (createFile Ex3.env 1 (.file (FileH.new (some 
       have : DirSlots.findFree (Ex8.VA.slots Ex8.dev.img) (Lfn.numParts (Names.encodeUtf16 "H".toList).length + 1) +
           (Lfn.numParts (Names.encodeUtf16 "H".toList).length + 1) ≤ Ex8.VA.N := by decide +kernel
       exact this) 0
+
+/-! ## `create_dir` with a cluster-chain parent: plain `Propagates`
+
+The remaining tolerated outcome of `createDir_propagates_wview` — an error of the roll-back `free_cluster_chain(cluster)`
+after a failed `write_entry` in the parent — cannot happen either when the parent is a cluster-chain directory
+(Proofs/FaultSim11): a `write_entry` hit by the fault outside destructors ends on a device on which the directory is
+still writable AND whose decoded FAT is the one before the call (`WView.writeEntry_keepsTv`: `find_free_entries` and the
+position query are read-only on the clean handle, a faulted slot write keeps the first FAT copy, the roll-back writes
+into the slots, the destructor of the clone at most rewrites the directory's own entry), so the freshly allocated
+cluster is still an end-of-chain there and freeing it succeeds. `DirSim.TvKeep V fs` is the per-kind obligation, PROVED
+for the root of FAT32 (`tvKeep_ofChain`) and for sub-directories (`tvKeep_ofSub`). -/
+
+open DirSim FileSim Fat in
+/-- **`create_dir`, plain `Propagates` on writable directories whose writes keep the FAT** -/
+theorem createDir_propagates_wview_plain {d : Dev} {st : DirStream} (V : WView d.disarm st) (hd : d.fault = none)
+    (hOK : FaultOK V) (K : TvKeep V d.fs) (env : Env) (path name : String)
+    (hsp : Names.splitPath path = (name, none)) (hdot : (name = "." || name = "..") = false)
+    (hval : Names.validateLongName name = .ok ()) (hla : d.fs.lfnAlloc = true)
+    (hgeo : FileSim.Geo d.fs d.img.size) (hinfo : InfoOk d.fs d.img) (hacc : d.fs.accDate = false)
+    (hcs32 : d.fs.clusterSize % 32 = 0) (hcs64 : 64 ≤ d.fs.clusterSize) (hu32 : d.fs.clusterSize < 4294967296)
+    (hfuelN : d.fs.clusterSize / 32 < dirFuel d.fs) (a : List Nat)
+    (hchk : DirAlias.checkForExistenceL env.upper (V.slots d.img) name (some true) 70000 = .ok (.alias a))
+    (c : Nat) (hfind : allocFindV (tabView d.fs d.img) d.fs.fsInfo.next d.fs.totalClusters = some c)
+    (hfit : DirSlots.findFree (V.slots d.img) (Lfn.numParts (Names.encodeUtf16 name.toList).length + 1) +
+      (Lfn.numParts (Names.encodeUtf16 name.toList).length + 1) ≤ V.N)
+    (hkeepA : ∀ d1 d2, SameVol d.disarm d1 → d1.clock = d.clock → AllocStep d1 d2 c → V.Inv d2)
+    (hslots : ∀ i, i < V.N →
+      (fatSliceOf d.fs).beginOff + (fatSliceOf d.fs).mirrors * (fatSliceOf d.fs).size ≤ V.src (32 * i) ∧
+      V.src (32 * i) + 32 ≤ d.img.size ∧
+      (V.src (32 * i) + 32 ≤ clusterOff d.fs c ∨ clusterOff d.fs c + d.fs.clusterSize ≤ V.src (32 * i)))
+    (hextra : ∀ q, V.Extra q →
+      (fatSliceOf d.fs).beginOff + (fatSliceOf d.fs).mirrors * (fatSliceOf d.fs).size ≤ q ∧
+      ¬ (clusterOff d.fs c ≤ q ∧ q < clusterOff d.fs c + d.fs.clusterSize))
+    (fuel : Nat) :
+    ∀ r d', run (createDir env (fuel + 1) st path) d = (r, d') → FaultOutcome (resErr r) d' :=
+  fun _ _ hr => V.createDir_fo_tv hd hOK K env path name hsp hdot hval hla hgeo hinfo hacc hcs32 hcs64 hu32 hfuelN a hchk c
+    hfind hfit hkeepA hslots hextra fuel hr
+
+open DirSim FileSim Fat in
+/-- **`create_dir` in a cluster-chain directory without an entry (the root of FAT32): plain `Propagates`** on every
+    device (any fault schedule) on which the directory is readable; the entry fits into the allocated clusters
+    (`hlastv`: the last cluster of the chain is not marked free, as in `createDir_chain_sim`) -/
+theorem createDir_propagates_chain_plain {d : Dev} {c0 : Nat} {chain : List Nat}
+    (h : ChainReadable d.disarm c0 none chain) (hwf : d.img.WF) (hd : d.fault = none) (hinfo : InfoOk d.fs d.img)
+    (ha : d.fs.lfnAlloc = true) (hacc : d.fs.accDate = false)
+    (hcs64 : 64 ≤ d.fs.clusterSize) (hu32 : d.fs.clusterSize < 4294967296)
+    (hfuelN : d.fs.clusterSize / 32 < dirFuel d.fs) (env : Env) (path name : String)
+    (hsp : Names.splitPath path = (name, none)) (hdot : (name = "." || name = "..") = false)
+    (hval : Names.validateLongName name = .ok ()) (a : List Nat)
+    (hchk : DirAlias.checkForExistenceL env.upper (chainSlots d.fs d.img chain) name (some true) 70000 = .ok (.alias a))
+    (c : Nat) (hfind : allocFindV (tabView d.fs d.img) d.fs.fsInfo.next d.fs.totalClusters = some c)
+    (hlastv : ∀ l, chain.getLast? = some l → tabView d.fs d.img l ≠ .free)
+    (hfit : DirSlots.findFree (chainSlots d.fs d.img chain) (Lfn.numParts (Names.encodeUtf16 name.toList).length + 1) +
+      (Lfn.numParts (Names.encodeUtf16 name.toList).length + 1) ≤ chain.length * (d.fs.clusterSize / 32)) (fuel : Nat) :
+    ∀ r d', run (createDir env (fuel + 1) (.file (FileH.new (some c0) none)) path) d = (r, d') →
+      FaultOutcome (resErr r) d' := by
+  have hgeo : FileSim.Geo d.fs d.img.size := h.dir.geo
+  obtain ⟨hc2, hct, hcf⟩ := allocFindV_some _ _ _ _ hinfo.hint hfind
+  have hcnot : c ∉ chain := free_not_in_chain h.dir.link hcf hlastv
+  have hsl : srcSlots d.img (chainSrc d.fs chain) (chain.length * (d.fs.clusterSize / 32)) = chainSlots d.fs d.img chain :=
+    h.slots_eq
+  have hinv0 := h.inv hwf
+  exact createDir_propagates_wview_plain (WView.ofChain d.disarm c0 chain h.dir hwf h.fuel) hd
+    (faultOK_ofChain _ _ _ _ _ _) (tvKeep_ofChain d.disarm c0 chain h.dir hwf h.fuel hacc) env path name hsp hdot hval ha
+    hgeo hinfo hacc h.dir.cs32 hcs64 hu32 hfuelN a (by rw [← hsl] at hchk; exact hchk) c hfind
+    (by rw [← hsl] at hfit; exact hfit)
+    (fun d1 d2 hv _ hal => hinv0.of_alloc hv hal hcnot)
+    (fun i hi => by
+      obtain ⟨x, hx, h1, h2⟩ := h.dir.core.slot_in_cluster i hi
+      have h1' : clusterOff d.fs x ≤ chainSrc d.fs chain (32 * i) := h1
+      have h2' : chainSrc d.fs chain (32 * i) + 32 ≤ clusterOff d.fs x + d.fs.clusterSize := h2
+      have hxt : 2 ≤ x ∧ x < d.fs.totalClusters + 2 := h.dir.inTab x hx
+      have h3 := hgeo.fat_data
+      have h4 := clusterOff_ge d.fs x
+      have h5 := (clusterOff_end hgeo hxt.1 hxt.2).2
+      have hxc : x ≠ c := fun e => hcnot (e ▸ hx)
+      have h6 := cluster_ranges_disjoint d.fs hxt.1 hc2 hxc
+      exact ⟨by show _ ≤ chainSrc d.fs chain (32 * i); omega, by show chainSrc d.fs chain (32 * i) + 32 ≤ _; omega,
+        by show chainSrc d.fs chain (32 * i) + 32 ≤ _ ∨ _ ≤ chainSrc d.fs chain (32 * i); omega⟩)
+    (fun q hq => hq.elim) fuel
+
+open DirSim FileSim Fat in
+/-- non-vacuity: for EVERY `k`, `create_dir("N")` in the two-cluster directory of `Ex5` armed with a fault at call `k` -/
+example (k : Nat) : ∀ r d', run (createDir Ex3.env 1 (.file (FileH.new (some 2) none)) "N")
+      { Ex5.dev with failAt := some k } = (r, d') → FaultOutcome (resErr r) d' := by
+  have h3 : FileSim.tabView Ex5.dev.fs Ex5.dev.img 3 = .eoc := by decide +kernel
+  exact createDir_propagates_chain_plain (d := { Ex5.dev with failAt := some k }) (c0 := 2) (chain := [2, 3])
+    ⟨Ex5.readable.dir, Ex5.readable.fuel⟩ Ex5.wf rfl ⟨fun n hn => (by cases hn), fun n hn => (by cases hn)⟩ rfl rfl
+    (show 64 ≤ Ex5.dev.fs.clusterSize by decide) (show Ex5.dev.fs.clusterSize < 4294967296 by decide)
+    (show Ex5.dev.fs.clusterSize / 32 < dirFuel Ex5.dev.fs by decide) Ex3.env "N" "N" (by decide +kernel) (by decide)
+    (by decide +kernel)
+    [78, 32, 32, 32, 32, 32, 32, 32, 32, 32, 32]
+    (show DirAlias.checkForExistenceL Ex3.env.upper (DirSim.chainSlots Ex5.dev.fs Ex5.dev.img [2, 3]) "N" (some true) 70000 = _
+      by decide +kernel) 4
+    (show allocFindV (tabView Ex5.dev.fs Ex5.dev.img) Ex5.dev.fs.fsInfo.next Ex5.dev.fs.totalClusters = some 4
+      by decide +kernel)
+    (fun l hl => by
+      have : l = 3 := by simpa using hl.symm
+      rw [this]; show FileSim.tabView Ex5.dev.fs Ex5.dev.img 3 ≠ _; rw [h3]; exact fun h => by cases h)
+    (show DirSlots.findFree (DirSim.chainSlots Ex5.dev.fs Ex5.dev.img [2, 3])
+      (Lfn.numParts (Names.encodeUtf16 "N".toList).length + 1) +
+      (Lfn.numParts (Names.encodeUtf16 "N".toList).length + 1) ≤ [2, 3].length * (Ex5.dev.fs.clusterSize / 32)
+      by decide +kernel) 0
+
+open DirSim FileSim Fat in
+/-- non-vacuity for a SUB-DIRECTORY as parent: for EVERY `k`, `create_dir("N")` in the directory `A` of `Ex8` armed with
+    a fault at call `k` (`Ex8.VA` with `faultOK_ofSub`, `tvKeep_ofSub`) -/
+example (k : Nat) : ∀ r d', run (createDir Ex3.env 1 (.file (FileH.new (some 2) (some Ex8.edA))) "N")
+      { Ex8.dev with failAt := some k } = (r, d') → FaultOutcome (resErr r) d' := by
+  have hhere : SubInv Ex8.dev.fs Ex8.edA 2 [2] Ex8.dev.clock Ex8.dev := Ex8.VA.here
+  have hfe : (fatSliceOf Ex8.dev.fs).beginOff + (fatSliceOf Ex8.dev.fs).mirrors * (fatSliceOf Ex8.dev.fs).size = 1024 := by
+    decide
+  have hcs : Ex8.dev.fs.clusterSize = 512 := by decide
+  have hsz : Ex8.dev.img.size = 4096 := by decide
+  exact createDir_propagates_wview_plain (d := { Ex8.dev with failAt := some k }) Ex8.VA rfl
+    (faultOK_ofSub _ _ _ _ _ _ _ _ _ _ _) (tvKeep_ofSub _ _ _ _ _ _ _ _ _ _ _) Ex3.env "N" "N" (by decide +kernel)
+    (by decide) (by decide +kernel) rfl Ex8.geo ⟨fun n hn => (by cases hn), fun n hn => (by cases hn)⟩ rfl
+    (show Ex8.dev.fs.clusterSize % 32 = 0 by decide) (show 64 ≤ Ex8.dev.fs.clusterSize by decide)
+    (show Ex8.dev.fs.clusterSize < 4294967296 by decide) (show Ex8.dev.fs.clusterSize / 32 < dirFuel Ex8.dev.fs by decide)
+    [78, 32, 32, 32, 32, 32, 32, 32, 32, 32, 32]
+    (show DirAlias.checkForExistenceL Ex3.env.upper (Ex8.VA.slots Ex8.dev.img) "N" (some true) 70000 = _ by decide +kernel) 5
+    (show allocFindV (tabView Ex8.dev.fs Ex8.dev.img) Ex8.dev.fs.fsInfo.next Ex8.dev.fs.totalClusters = some 5
+      by decide +kernel)
+    (show DirSlots.findFree (Ex8.VA.slots Ex8.dev.img) (Lfn.numParts (Names.encodeUtf16 "N".toList).length + 1) +
+      (Lfn.numParts (Names.encodeUtf16 "N".toList).length + 1) ≤ Ex8.VA.N by decide +kernel)
+    (fun d1 d2 hv hc hal => SubInv.of_alloc hhere hv hc hal (by decide))
+    (fun i hi => by
+      have hi' : i < 16 := hi
+      have e : Ex8.VA.src (32 * i) = chainSrc Ex8.dev.fs [2] (32 * i) := rfl
+      rw [e, Ex8.src 2 i hi', Ex8.off]
+      show _ ≤ _ ∧ _ ≤ Ex8.dev.img.size ∧ (_ ≤ clusterOff Ex8.dev.fs 5 ∨ clusterOff Ex8.dev.fs 5 + Ex8.dev.fs.clusterSize ≤ _)
+      rw [Ex8.off, hfe, hcs, hsz]
+      omega)
+    (fun q hq => by
+      have hq' : subExtra Ex8.edA q := hq
+      unfold subExtra at hq'
+      have : Ex8.edA.pos = 1024 := rfl
+      show _ ≤ q ∧ ¬ (clusterOff Ex8.dev.fs 5 ≤ q ∧ q < clusterOff Ex8.dev.fs 5 + Ex8.dev.fs.clusterSize)
+      rw [Ex8.off, hfe, hcs]
+      omega) 0
 
 end FatVerif
